@@ -73,7 +73,7 @@ type scEv struct {
 	CaseID int             `json:"caseid,omitempty"`
 	C      json.RawMessage `json:"c,omitempty"`
 	ID     int             `json:"id"` // Begin: id of the ammo (0: ammo has none); Report: id of the sample
-	Tags   []string        `json:"tags,omitempty"`
+	Tags   *[]string       `json:"tags,omitempty"` // Report: always present, possibly empty
 	Proto  int             `json:"proto"`
 	Net    int             `json:"net"`
 	Err    string          `json:"err,omitempty"`
@@ -113,11 +113,11 @@ func (a *scAgg) Report(s core.Sample) {
 		panic(fmt.Sprintf("scAgg: sample %T", s))
 	}
 	e := scEv{Ev: "Report", Inst: a.inst, ID: vt.Small(int64(ns.ID())), Proto: ns.ProtoCode(), Net: hwNetCode(ns)}
+	tags := []string{}
 	if ns.Tags() != "" {
-		e.Tags = strings.Split(ns.Tags(), "|") // phout joins a sample's tags with "|"
-	} else {
-		e.Tags = []string{}
+		tags = strings.Split(ns.Tags(), "|") // phout joins a sample's tags with "|"
 	}
+	e.Tags = &tags
 	if ns.Err() != nil {
 		e.Err = ns.Err().Error()
 	}
